@@ -8,13 +8,13 @@ THOROUGH_S = 300
 EXHAUSTIVE_CLAIM = True
 TECHNIQUE = 'runtime monitoring: tagged scope providers with call log; exhaustive enumeration of registration-key subsets'
 RULE = ('exhaustive: every subset of 8 registration keys (Use.ref, *.ref, Use.*, *.*, Other.ref, Use.refs, *.refs, Other.*), '
-        'each bound to a tagged provider (callable or RREL string with a fixed name) resolving to a distinct target, x grammar '
+        'each bound to a tagged provider (callable, callable object whose truth value is False, or RREL string with a fixed name) resolving to a distinct target, x grammar '
         'variants (no RREL / RREL on Use.ref / RREL on Use.refs and Other.ref) x registration via register_scope_providers or '
         'the constructor-time dict; for each of the references Use.ref (single), Use.refs (list), Other.ref the observed target '
         'and the provider call log are compared with the documented precedence. distinct = (subset, grammar variant, provider '
         'kind, dict order); non-trivial = at least 2 keys registered')
 REQUIRED = {'references_checked': 1000, 'grammar_rrel_wins_checked': 50, 'default_provider_checked': 3,
-            'rrel_string_checked': 50}
+            'rrel_string_checked': 50, 'falsy_provider_objects_cases': 50}
 
 KEYS = ['Use.ref', '*.ref', 'Use.*', '*.*', 'Other.ref', 'Use.refs', '*.refs', 'Other.*']
 
@@ -71,6 +71,12 @@ def one(ctx, subset, gvariant, kind, reverse, via_ctor, rep):
                 if d.name == t:
                     return d.subs[0]
             return None
+        if kind == 'falsy-callable':
+            # a provider object whose truth value is False (e.g. a still empty symbol table that is callable)
+            class Table(dict):
+                def __call__(self, obj, attr, obj_ref):
+                    return provider(obj, attr, obj_ref)
+            return Table()
         return provider
 
     keys = list(subset)
@@ -112,12 +118,14 @@ def one(ctx, subset, gvariant, kind, reverse, via_ctor, rep):
             ctx.count('rrel_string_checked')
         if got != exp and bad is None:
             bad = (rule, attr, got, exp)
-    if kind == 'callable' and bad is None:
+    if kind in ('callable', 'falsy-callable') and bad is None:
         # the call log must only contain providers that were entitled to be asked
         for key, cls, attr in log:
             if expected(cls, attr, subset, gvariant) != tag(key):
                 bad = (cls, attr, 'provider %s was consulted' % key, expected(cls, attr, subset, gvariant))
                 break
+    if kind == 'falsy-callable':
+        ctx.count('falsy_provider_objects_cases')
     ctx.case((tuple(sorted(subset)), gvariant, kind, reverse), len(subset) >= 2,
              {'registered': keys, 'grammar': gvariant, 'kind': kind, 'observed': obs[:4]})
     if bad:
@@ -131,7 +139,7 @@ def space():
     for n in range(len(KEYS) + 1):
         for subset in itertools.combinations(KEYS, n):
             for gv in GRAMMARS:
-                for kind in ('callable', 'string'):
+                for kind in ('callable', 'string', 'falsy-callable'):
                     for reverse in (False, True):
                         out.append((subset, gv, kind, reverse))
     return out
